@@ -444,3 +444,111 @@ Proof.
   { unfold get_specials_spec. intros X. eapply assoc_ok; [|exact X]. assumption. }
   destruct k; auto.
 Qed.
+
+(** * Tolerant mode: a token error becomes its placeholder token *)
+Lemma next_tok_tol s ps p :
+  next_tok s true ps p = match impl_peek ps s p with TokErr e => TokOk (te_placeholder e) | x => x end.
+Proof.
+  unfold next_tok, next_token, peek_token, rd_at. cbn [r_s r_pos r_tol].
+  destruct (impl_peek ps s p); reflexivity.
+Qed.
+Lemma peek_tok_tol s ps p :
+  peek_tok s true ps p = match impl_peek ps s p with TokErr e => TokOk (te_placeholder e) | x => x end.
+Proof.
+  unfold peek_tok, peek_token, rd_at. cbn [r_s r_pos r_tol].
+  destruct (impl_peek ps s p); reflexivity.
+Qed.
+
+(** placeholders are character tokens no longer than their span; the empty one
+    (escape character at the very end) ends at the end of the input *)
+Definition char_len_ok (s : str) (t : token) : Prop :=
+  tk t = TkChar -> length (targ t) <= tend t - tpos t /\ (targ t = [] -> length s <= tend t).
+
+Lemma placeholder_char ps s pos e : impl_peek ps s pos = TokErr e ->
+  tk (te_placeholder e) = TkChar /\ char_len_ok s (te_placeholder e).
+Proof.
+  unfold impl_peek. destruct (peek_space s pos) as [pre0 p2].
+  destruct (_ && _); [discriminate|].
+  destruct (skipn p2 s) as [|c rest] eqn:R; [discriminate|].
+  unfold dispatch, orelse.
+  destruct (stage_math ps (c :: rest) p2 pre0 c) as [r|] eqn:E1.
+  { intros ->. exfalso. unfold stage_math in E1. destruct (_ && _); [|discriminate].
+    destruct (read_math _ _ _ _); discriminate. }
+  destruct (stage_escape ps s p2 pre0 c) as [r|] eqn:E2.
+  { intros ->. unfold stage_escape in E2. destruct (str_eqb _ _); [|discriminate].
+    assert (RM : read_macro ps s p2 pre0 = TokErr e ->
+                 tk (te_placeholder e) = TkChar /\ char_len_ok s (te_placeholder e)).
+    { unfold read_macro. destruct (skipn (S p2) s) as [|d r] eqn:SK.
+      - intros H. injection H as <-. unfold char_len_ok. cbn [te_placeholder mk tk targ tpos tend length]. split; [reflexivity|]. intros _.
+        apply skipn_nil_len in SK. split; [lia|]. intros _. exact SK.
+      - destruct (mem_c d _); [destruct (post_space_at _ _)|]; discriminate. }
+    assert (RE : forall b, read_environment ps s p2 b pre0 = TokErr e ->
+                 tk (te_placeholder e) = TkChar /\ char_len_ok s (te_placeholder e)).
+    { intros b. unfold read_environment. destruct (match_envname _) as [[nm len]|]; [discriminate|].
+      intros H. injection H as <-. unfold char_len_ok. cbn [te_placeholder mk tk targ tpos tend length]. split; [reflexivity|]. intros _. split; [lia|].
+      intros Z. apply app_eq_nil in Z. destruct Z as [_ Z]. destruct b; discriminate. }
+    assert (M : (if f_en_macros (ps_f ps) then Some (read_macro ps s p2 pre0) else None) = Some (TokErr e) ->
+                tk (te_placeholder e) = TkChar /\ char_len_ok s (te_placeholder e)).
+    { destruct (f_en_macros _); [|discriminate]. intros H. injection H as H. auto. }
+    destruct (f_en_envs _); [|auto].
+    destruct (startswith _ kw_begin).
+    - destruct (char_at s _) as [d|]; [destruct (mem_c d _); [auto|]|]; injection E2 as E2; eauto.
+    - destruct (startswith _ kw_end); [|auto].
+      destruct (char_at s _) as [d|]; [destruct (mem_c d _); [auto|]|]; injection E2 as E2; eauto. }
+  destruct (stage_comment ps s (c :: rest) p2 pre0 c) as [r|] eqn:E3.
+  { intros ->. exfalso. unfold stage_comment in E3. destruct (f_comment _); [discriminate|].
+    destruct (_ && _); discriminate. }
+  destruct (stage_group ps p2 pre0 c) as [r|] eqn:E4.
+  { intros ->. exfalso. unfold stage_group in E4. destruct (f_en_groups _); [|discriminate].
+    destruct (existsb _ _); [discriminate|]. destruct (existsb _ _); discriminate. }
+  destruct (stage_specials ps (c :: rest) p2 pre0) as [r|] eqn:E5.
+  { intros ->. exfalso. unfold stage_specials in E5. destruct (f_ctx_specials _); [|discriminate].
+    destruct (f_en_specials _); [|discriminate]. destruct (test_specials _ _ _); discriminate. }
+  unfold char_token. destruct (mem_c c _); [|discriminate].
+  intros H. injection H as <-. unfold char_len_ok. cbn [te_placeholder mk tk targ tpos tend length]. split; [reflexivity|]. intros _. split; [lia|discriminate].
+Qed.
+
+(** what the tolerant proofs use of a token *)
+Record tokfacts_t (s : str) (pos : nat) (t : token) : Prop := {
+  tt_pos : tpos t = pos + length (tpre t);
+  tt_lt : tpos t < tend t;
+  tt_end : tend t <= length s;
+  tt_len : char_len_ok s t;
+  tt_ns : tk t <> TkChar -> tk t <> TkSpecials -> nonspace_at s (tpos t);
+}.
+
+Lemma good_peek_tol s ps pos : good ps -> pos <= length s ->
+  match impl_peek ps s pos with
+  | TokOk t => tokfacts_t s pos t
+  | TokEOS fin => fin = skipn pos s
+  | TokErr e => tokfacts_t s pos (te_placeholder e)
+  end.
+Proof.
+  intros G H. pose proof (good_peek s ps pos G H) as P. destruct (good_ps_wf ps G) as [WF MK].
+  pose proof (impl_peek_ok ps s pos WF H) as Q.
+  destruct (impl_peek ps s pos) as [t|fin|e] eqn:E; auto.
+  - destruct P as [F1 F2 F3 F4 F5 F6]. constructor; auto.
+    intros K. unfold tok_txt in F5. rewrite K in F5.
+    assert (LEN : length (targ t) = tend t - tpos t) by (rewrite F5; apply slice_length; exact F4).
+    split; [lia|]. intros Z. rewrite Z in LEN. cbn in LEN. lia.
+  - cbn [peek_ok] in Q. destruct Q as [(Q1 & Q2 & Q3 & Q4) _].
+    destruct (placeholder_char ps s pos e E) as [K C].
+    constructor; auto. intros NK. congruence.
+Qed.
+
+Lemma good_peek_nonspace_tol s ps p : good ps -> nonspace_at s p ->
+  match impl_peek ps s p with
+  | TokOk t => tpre t = []
+  | TokEOS _ => False
+  | TokErr e => tpre (te_placeholder e) = []
+  end.
+Proof.
+  intros G (c & N & NS). destruct (good_ps_wf ps G) as [WF _].
+  destruct (nth_error_skipn_ex s p c N) as [r R].
+  unfold impl_peek, peek_space. rewrite R. cbn [span]. rewrite NS. cbn [fst length count_c Nat.leb].
+  rewrite andb_false_r, Nat.add_0_r, R.
+  pose proof (dispatch_placed ps s (c :: r) p [] c WF R (ex_intro _ r eq_refl)) as P.
+  destruct (dispatch ps s (c :: r) p [] c); cbn [res_placed] in P; auto.
+  - destruct P as (_ & P2 & _). exact P2.
+  - destruct P as ((_ & P2 & _) & _). exact P2.
+Qed.
